@@ -54,3 +54,7 @@ Definition run_c11_old (e : expr) : list tuple :=
 (* the same with an arbitrary tree (the harness swaps BuiltinUntrustedInputs) *)
 Definition run_c11_tree (te : list utree * expr) : list tuple :=
   map (obs_of_report (all_leaves (fst te))) (check_untrusted true (fst te) funcs true (snd te)).
+
+(* the automaton alone, driven through the exported callbacks by VisitExprNode *)
+Definition run_c11_visit (e : expr) : list tuple :=
+  map (obs_of_report (all_leaves tree)) (reported true tree (visit_events e)).
